@@ -312,7 +312,7 @@ fn run_case(case: &Case, v: &mut Verdict, current: &mut String) -> Result<(), St
             }
             XOp::Image { spec, second_projection } => {
                 *current = "add_image".into();
-                let mut tr = crate::prog::Trace::default();
+                let mut tr = crate::prog::Trace { late_image_calls: spec.guid.len() % 3 == 0, ..Default::default() };
                 let mut sp = spec.clone();
                 if *second_projection {
                     // a second projection must be refused; emulate by running the image twice through the same writer below
@@ -320,6 +320,11 @@ fn run_case(case: &Case, v: &mut Verdict, current: &mut String) -> Result<(), St
                 }
                 crate::prog::exec_image(&mut w, &sp, &mut tr);
                 *current = tr.current.clone();
+                if let Some((call, e)) = &tr.error {
+                    if call.contains("after image.finalize") || call.contains("(second call)") {
+                        return Err(format!("{call}: {e}"));
+                    }
+                }
                 if tr.error.is_none() && sp.finalize {
                     if sp.visual.is_none() && sp.projection.is_none() {
                         return Err("ImageWriter::finalize accepted an image without any representation".into());
